@@ -25,6 +25,9 @@ pub enum Fault {
     DropBlock(usize, usize),
     /// structured corruption of the inner payload: the resulting full text is stored
     Structured(String),
+    /// torn write: the first `i` bytes of the new text were written over an older file whose content (from byte
+    /// `j` on) survives: new[..i] ++ old[j..]
+    Torn(usize, usize, String),
 }
 
 impl Fault {
@@ -36,6 +39,7 @@ impl Fault {
             Fault::DupBlock(_, _) => "dup-block",
             Fault::DropBlock(_, _) => "drop-block",
             Fault::Structured(_) => "structured",
+            Fault::Torn(_, _, _) => "torn-write",
         }
     }
     pub fn apply(&self, text: &[u8]) -> Vec<u8> {
@@ -74,6 +78,12 @@ impl Fault {
                 t
             }
             Fault::Structured(s) => s.as_bytes().to_vec(),
+            Fault::Torn(i, j, old) => {
+                let ob = old.as_bytes();
+                let mut t = text[..(*i).min(n)].to_vec();
+                t.extend_from_slice(&ob[(*j).min(ob.len())..]);
+                t
+            }
         }
     }
 }
@@ -617,6 +627,52 @@ fn targeted(inner: &mut serde_json::Value, rng: &mut Rng) -> Option<&'static str
     }
 }
 
+/// Element boundaries of a serialised text: positions of the opening brace of `},{` with the bracket depth there.
+/// A torn write that lands on boundaries of equal depth gives a text that still parses as JSON but mixes the tables
+/// of two contexts.
+fn element_boundaries(t: &[u8]) -> Vec<(usize, i32)> {
+    let mut v = vec![];
+    let mut d = 0i32;
+    for p in 0..t.len() {
+        match t[p] {
+            b'{' | b'[' => {
+                if t[p] == b'{' && p >= 2 && t[p - 1] == b',' && t[p - 2] == b'}' {
+                    v.push((p, d));
+                }
+                d += 1;
+            }
+            b'}' | b']' => d -= 1,
+            _ => {}
+        }
+    }
+    v
+}
+
+fn torn_fault(new: &[u8], old: &str, rng: &mut Rng) -> Fault {
+    let ob = old.as_bytes();
+    if rng.chance(1, 4) || new.is_empty() || ob.is_empty() {
+        // same offset in both files (the file system wrote a prefix of the new content)
+        let k = rng.usize_below(new.len().max(1));
+        return Fault::Torn(k, k, old.to_string());
+    }
+    let a = element_boundaries(new);
+    let b = element_boundaries(ob);
+    if a.is_empty() || b.is_empty() {
+        let k = rng.usize_below(new.len());
+        return Fault::Torn(k, k, old.to_string());
+    }
+    for _ in 0..8 {
+        let (i, d) = *rng.pick(&a);
+        let same: Vec<usize> = b.iter().filter(|(_, e)| *e == d).map(|(j, _)| *j).collect();
+        if !same.is_empty() {
+            return Fault::Torn(i, *rng.pick(&same), old.to_string());
+        }
+    }
+    let (i, _) = *rng.pick(&a);
+    let (j, _) = *rng.pick(&b);
+    Fault::Torn(i, j, old.to_string())
+}
+
 pub fn structured_fault(text: &str, rng: &mut Rng) -> Option<(Fault, String)> {
     let mut outer: serde_json::Value = serde_json::from_str(text).ok()?;
     match rng.below(10) {
@@ -814,7 +870,13 @@ pub fn store_case(args: &Args, idx: usize, faults_per_case: usize, exhaustive_li
                 }
             }
         }
-        if let Some((class, detail)) = read_and_check(&corrupted, &mut out.counts) {
+        let ok_before = out.counts.get("read:ok").copied().unwrap_or(0);
+        let verdict = read_and_check(&corrupted, &mut out.counts);
+        if out.counts.get("read:ok").copied().unwrap_or(0) > ok_before {
+            let kind = tag.split(':').next().unwrap_or("").to_string();
+            *out.counts.entry(format!("accepted-after:{}", kind)).or_insert(0) += 1;
+        }
+        if let Some((class, detail)) = verdict {
             if std::env::var("VERIF_COLLECT").is_ok() {
                 let key: String = detail.chars().take(160).collect();
                 *out.counts.entry(format!("COLLECT:{}:{}", class, key)).or_insert(0) += 1;
@@ -841,8 +903,26 @@ pub fn store_case(args: &Args, idx: usize, faults_per_case: usize, exhaustive_li
             }
         }
     }
+    // the older file a torn write lands on: the serialisation of another context of this case's generator, or of
+    // this context before/after a small change of the text
+    let mut old_texts: Vec<String> = vec![];
     for _ in 0..faults_per_case {
-        let (f, tag) = match rng.below(10) {
+        let (f, tag) = match rng.below(12) {
+            10 | 11 => {
+                if old_texts.is_empty() {
+                    if let Ok(Some(w2)) = guarded(|| write_context(&mut rng)) {
+                        if let Ok(t) = serde_json::to_string(&w2.ctx) {
+                            old_texts.push(t);
+                        }
+                    }
+                    if let Some((Fault::Structured(t), _)) = structured_fault(&s1, &mut rng) {
+                        old_texts.push(t);
+                    }
+                    old_texts.push(s1.clone());
+                }
+                let old = rng.pick(&old_texts).clone();
+                (torn_fault(bytes, &old, &mut rng), "torn-write".to_string())
+            }
             0 => (Fault::Truncate(rng.usize_below(n)), "truncate".to_string()),
             1 | 2 => {
                 let k = 1 + rng.usize_below(8);
